@@ -285,3 +285,82 @@ func (cm *CachedModel) eval1(t *Term, memo map[int]MVal) (MVal, bool) {
 	}
 	return MVal{}, false
 }
+
+// modelCoherent: a model assembled from several sliced answers treats every UF application as an
+// independent value; before it is turned into a concrete scenario it must respect congruence (equal
+// arguments, equal results) and the UF axiom instances the solvers are given.
+func modelCoherent(cm *CachedModel, ts []*Term) bool {
+	memo := map[int]MVal{}
+	seen := map[int]bool{}
+	var apps []*Term
+	var walk func(t *Term)
+	walk = func(t *Term) {
+		if seen[t.ID] {
+			return
+		}
+		seen[t.ID] = true
+		for _, a := range t.Args {
+			walk(a)
+		}
+		if t.Op == "uf" {
+			apps = append(apps, t)
+		}
+	}
+	for _, t := range ts {
+		walk(t)
+	}
+	key := func(v MVal) string {
+		switch {
+		case v.I != nil:
+			return "i" + v.I.String()
+		case v.S != nil:
+			return "s" + *v.S
+		case v.B != nil:
+			if *v.B {
+				return "bt"
+			}
+			return "bf"
+		}
+		return "?"
+	}
+	byArgs := map[string]string{}
+	for round := 0; round < 2; round++ {
+		n := len(apps)
+		for _, app := range apps[:n] {
+			rv, ok := cm.eval(app, memo)
+			if !ok {
+				continue
+			}
+			k := app.SV
+			full := true
+			for _, a := range app.Args {
+				av, ok := cm.eval(a, memo)
+				if !ok {
+					full = false
+					break
+				}
+				k += "|" + key(av)
+			}
+			if full {
+				if prev, ok := byArgs[k]; ok && prev != key(rv) {
+					return false
+				}
+				byArgs[k] = key(rv)
+			}
+			if round == 0 {
+				termMu.Lock()
+				gen := ufAxioms[app.SV]
+				termMu.Unlock()
+				if gen != nil {
+					for _, ax := range gen(app) {
+						if v, ok := cm.eval(ax, memo); ok && v.B != nil && !*v.B {
+							return false
+						}
+						walk(ax) // applications introduced by the axioms take part in the congruence check
+					}
+				}
+			}
+		}
+	}
+	return true
+}
